@@ -1944,6 +1944,53 @@ impl Translator {
         self.wrapper_footer(st, nargs, for_function_body);
     }
 
+    /// A variant declared with several fields stores a struct only when at least two of them are
+    /// not void (see the constructor call): with exactly one non-void field the payload is that bare
+    /// value, with none it is a dummy. For the field patterns of such a variant returns
+    /// `Some(Some((sub-pattern, type)))` of the one non-void field, or `Some(None)` when all are void;
+    /// `None` when the payload is an ordinary struct (or the variant has a single field).
+    #[allow(clippy::type_complexity)]
+    fn collapsed_variant_fields(
+        &self,
+        pats: &[Rc<Pat>],
+        mono: &MonomorphEnv,
+    ) -> Option<Option<(Rc<Pat>, Type)>> {
+        if pats.len() < 2 {
+            return None;
+        }
+        let non_void: Vec<(Rc<Pat>, Type)> = pats
+            .iter()
+            .map(|p| (p.clone(), self.get_ty(mono, p.node()).unwrap()))
+            .filter(|(_, ty)| *ty != SolvedType::Void)
+            .collect();
+        match non_void.len() {
+            0 => Some(None),
+            1 => Some(non_void.into_iter().next()),
+            _ => None,
+        }
+    }
+
+    /// positional form: `.Va(p1, p2)` is a tuple pattern over the declared fields
+    #[allow(clippy::type_complexity)]
+    fn collapsed_variant_payload(
+        &self,
+        ctor: &Rc<Identifier>,
+        inner: &Rc<Pat>,
+        mono: &MonomorphEnv,
+    ) -> Option<Option<(Rc<Pat>, Type)>> {
+        let Declaration::EnumVariant { e, variant } = &self.statics.resolution_map[&ctor.id] else {
+            return None;
+        };
+        let PatKind::Tuple(pats) = &*inner.kind else {
+            return None;
+        };
+        if e.variants[*variant].fields.len() != pats.len() {
+            // a single declared field of tuple type: a real tuple
+            return None;
+        }
+        self.collapsed_variant_fields(pats, mono)
+    }
+
     // emit items for checking if a pattern matches the TOS, replacing it with a boolean
     fn translate_pat_comparison(
         &self,
@@ -2029,7 +2076,23 @@ impl Translator {
                     match inner {
                         Some(PatVariantData::Positional(inner)) => {
                             let inner_ty = self.get_ty(mono, inner.node()).unwrap();
-                            if inner_ty != SolvedType::Void {
+                            if let Some(collapsed) = self.collapsed_variant_payload(ctor, inner, mono) {
+                                // several declared fields of which at most one is not void: the
+                                // payload is that bare value (or a dummy), not a struct
+                                match collapsed {
+                                    Some((field_pat, field_ty)) => {
+                                        self.translate_pat_comparison(
+                                            &field_ty,
+                                            &field_pat,
+                                            st,
+                                            mono,
+                                            or_pat_decisions,
+                                        );
+                                        self.emit(st, Instr::Jump(end_label.clone()));
+                                    }
+                                    None => void_case(),
+                                }
+                            } else if inner_ty != SolvedType::Void {
                                 self.translate_pat_comparison(
                                     &inner_ty,
                                     inner,
@@ -2057,6 +2120,22 @@ impl Translator {
                                     self.emit(st, Instr::Jump(end_label.clone()));
                                 } else {
                                     void_case();
+                                }
+                            } else if let Some(collapsed) =
+                                self.collapsed_variant_fields(&pats, mono)
+                            {
+                                match collapsed {
+                                    Some((field_pat, field_ty)) => {
+                                        self.translate_pat_comparison(
+                                            &field_ty,
+                                            &field_pat,
+                                            st,
+                                            mono,
+                                            or_pat_decisions,
+                                        );
+                                        self.emit(st, Instr::Jump(end_label.clone()));
+                                    }
+                                    None => void_case(),
                                 }
                             } else {
                                 let types = pats
@@ -2809,9 +2888,24 @@ impl Translator {
                 };
                 match inner {
                     Some(PatVariantData::Positional(inner)) => {
-                        let pat_ty = self.get_ty(mono, pat.node()).unwrap();
+                        let pat_ty = self.get_ty(mono, inner.node()).unwrap();
 
-                        if pat_ty != SolvedType::Void {
+                        if let Some(collapsed) = self.collapsed_variant_payload(tag, inner, mono) {
+                            match collapsed {
+                                Some((field_pat, _)) => {
+                                    self.emit(st, Instr::DeconstructVariant);
+                                    self.emit(st, Instr::Pop);
+                                    self.handle_pat_binding(
+                                        &field_pat,
+                                        locals,
+                                        st,
+                                        mono,
+                                        or_pat_decisions,
+                                    );
+                                }
+                                None => void_case(),
+                            }
+                        } else if pat_ty != SolvedType::Void {
                             // unpack tag and associated data
                             self.emit(st, Instr::DeconstructVariant);
                             // pop tag
@@ -2828,7 +2922,26 @@ impl Translator {
                         self.emit(st, Instr::Pop);
                         let pats = self.variant_named_pats_in_order(tag, named);
                         if pats.len() == 1 {
-                            self.handle_pat_binding(&pats[0], locals, st, mono, or_pat_decisions);
+                            if self.get_ty(mono, pats[0].node()).unwrap() == SolvedType::Void {
+                                // the payload of an all-void variant is a dummy value that no pattern consumes
+                                self.emit(st, Instr::Pop);
+                            } else {
+                                self.handle_pat_binding(&pats[0], locals, st, mono, or_pat_decisions);
+                            }
+                        } else if let Some(collapsed) = self.collapsed_variant_fields(&pats, mono) {
+                            match collapsed {
+                                Some((field_pat, _)) => {
+                                    self.handle_pat_binding(
+                                        &field_pat,
+                                        locals,
+                                        st,
+                                        mono,
+                                        or_pat_decisions,
+                                    );
+                                }
+                                // the dummy payload of an all-void variant
+                                None => self.emit(st, Instr::Pop),
+                            }
                         } else {
                             self.emit(st, Instr::DeconstructStruct);
                             for pat in pats {
